@@ -7,6 +7,9 @@ type ProtocolState struct {
 	pendingParse mysql.OnQueryObject
 	stmtID       uint32
 	fields       []*ColumnDescription
+
+	// lastPrepareRejected tells that the last COM_STMT_PREPARE was answered with an error by AcraCensor
+	lastPrepareRejected bool
 }
 
 // NewProtocolState makes an initial MySQL state, awaiting for queries.
@@ -24,6 +27,16 @@ func (p *ProtocolState) PendingParse() mysql.OnQueryObject {
 // SetPendingParse set pendingParse value
 func (p *ProtocolState) SetPendingParse(obj mysql.OnQueryObject) {
 	p.pendingParse = obj
+}
+
+// LastPrepareRejected tells whether the last COM_STMT_PREPARE of the client was rejected by AcraCensor
+func (p *ProtocolState) LastPrepareRejected() bool {
+	return p.lastPrepareRejected
+}
+
+// SetLastPrepareRejected keeps whether the last COM_STMT_PREPARE of the client was rejected by AcraCensor
+func (p *ProtocolState) SetLastPrepareRejected(rejected bool) {
+	p.lastPrepareRejected = rejected
 }
 
 // SetStmtID set stmtID value
